@@ -151,7 +151,7 @@ package input
 //@ ensures forall k string :: k != to && k != from ==> pt.Fields[k] == old(pt.Fields[k]) && pt.Tags[k] == old(pt.Tags[k]) && pt.Meta[k] == old(pt.Meta[k])
 
 // C16: the point operations write only the point, its index entries and run-time values
-//@ framesweep[C16] runtime.runWrites * -init
+//@ framesweep[C16,C15] runtime.runWrites * -init
 
 // ---- the point operations: what a write stores ------------------------------------------------
 
